@@ -71,6 +71,12 @@ type magDriver struct {
 	asmSel   bool
 	cache    map[string][][]absint.Val // leaf-function summaries: key -> per pointer argument, final limb values
 	hits     int
+	// engine X (rules_exact.go)
+	weights  []int
+	exact    map[string]string
+	exactPos map[string]*ssa.Function
+	exactOK  map[string]int
+	exactN   int
 }
 
 func (d *magDriver) structFields(t types.Type) int {
@@ -186,7 +192,7 @@ func (d *magDriver) initGlobal(it *absint.Interp, g *ssa.Global, obj int) bool {
 }
 
 func (d *magDriver) hooks() absint.Hooks {
-	return absint.Hooks{Modular: modularFuncs, MaxForks: 64, InitGlobal: d.initGlobal, Summary: func(it *absint.Interp, f *ssa.Function, args []absint.AnyVal, call ssa.Instruction) (absint.AnyVal, bool) {
+	return absint.Hooks{Modular: modularFuncs, MaxForks: 64, Polys: d.weights != nil, InitGlobal: d.initGlobal, Summary: func(it *absint.Interp, f *ssa.Function, args []absint.AnyVal, call ssa.Instruction) (absint.AnyVal, bool) {
 		// leaf field operations depend only on the magnitudes of their operands: summarise and reuse
 		if ssau.PkgSuffix(f) == "internal/curve25519" && f.Parent() == nil && f.Signature.Recv() == nil && f.Name() != "Contract" && f.Name() != "Expand" {
 			if res, ok := d.cached(it, f, args); ok {
@@ -266,10 +272,13 @@ func (d *magDriver) cached(it *absint.Interp, f *ssa.Function, args []absint.Any
 		}
 		return nil, true
 	}
+	d.squareInduction(it, f, args)
+	er := d.exactPre(it, f, args, ptrs)
 	it.Call(f, args, nil)
 	if it.Err != nil {
 		return nil, true
 	}
+	d.exactPost(it, f, er, key)
 	var outs [][]absint.Val
 	for _, pid := range ptrs {
 		o := it.St.Objs[pid]
@@ -375,7 +384,8 @@ func ruleMagnitudesField(r *rep.Report, p *load.Program) {
 	cfg := p.Cfg.Name
 	weights, widths, w := fieldLayout(p)
 	_ = weights
-	d := &magDriver{p: p, r: r, nLimbs: len(widths), w: w, classes: map[string]class{}, findings: map[string]string{}, pos: map[string]string{}}
+	d := &magDriver{p: p, r: r, nLimbs: len(widths), w: w, classes: map[string]class{}, findings: map[string]string{}, pos: map[string]string{},
+		weights: weights, exact: map[string]string{}, exactPos: map[string]*ssa.Function{}, exactOK: map[string]int{}}
 	d.asmSel = ssau.Func(p, "internal/ge25519", "scalarmultBaseChooseNielsAMD64") != nil
 	reduced := make([]*big.Int, len(widths))
 	for i := range reduced {
@@ -492,6 +502,7 @@ func ruleMagnitudesField(r *rep.Report, p *load.Program) {
 		}
 		r.Fail("R-magnitude", cfg, "field arithmetic under every magnitude the group law can produce: no overflow, borrow, lossy narrowing or lost carry", d.pos[k], "mag:"+k, d.findings[k])
 	}
+	d.reportExact()
 	if len(fk) == 0 && stable {
 		r.OK("R-magnitude", cfg, "field arithmetic under every magnitude the group law can produce: no overflow, borrow, lossy narrowing or lost carry",
 			fmt.Sprintf("%d abstract runs of %d group-law / field users; classes %s", d.runs, len(jobs), strings.Join(cl, " ")))
